@@ -604,3 +604,10 @@ def run(ctx):
     outs_s = r3_leaf_and_root(ctx, outs, key)
     r4_root_selection(ctx, outs_s)
     r6_all_candidates(ctx, outs)
+    # the value of a node must not depend on how much has been searched so far: the statistics counters reach no branch, argument or result
+    # (a node budget that turns nodes into leaves once a count is exceeded makes cached interior values depend on the search history)
+    from . import c09
+    c09.init_fields(ctx.facts)
+    import_rules(ctx, 'C08.R7-no-count-dependence', [c09.r2_non_interference],
+                 'exact fixed-depth minimax is a function of the position and the depth alone; a value that depends on a visit counter is not',
+                 floor=3)
